@@ -69,21 +69,81 @@ for g, m in (('push', PUSH), ('ins1', INS1), ('erase1', ERASE1), ('erase2', ERAS
 
 
 # ---------------------------------------------------------------------------------------------------------------------
-# spill.cpp: pointer-caching (kIteratorPreferSpeed) iterator, one growing operation that spills into a never-allocated bucket
+# spill.cpp: pointer-caching (kIteratorPreferSpeed) iterator, ONE growing operation on a concrete prefix that ends 1-2 elements
+# before a bucket boundary and spills into a bucket that has never been allocated.  All sizes literal (first bucket, prefix,
+# count); insertion position literal (_atN) or symbolic over one literal scenario per value; values symbolic.
 SCEN = {'insert_count': 0, 'insert_range': 1, 'insert_ilist': 2, 'grow_default': 3, 'grow_value': 4, 'resize': 5, 'emplace_x': 6,
         'push_x': 7, 'grow_ilist': 8, 'grow_range': 9, 'grow_gen': 10, 'grow_to_at_least': 11, 'insert_one_x': 12,
         'insert_vrange': 13}
+SCEN_TEXT = {'insert_count': 'insert(pos, %d, value)', 'insert_range': 'insert(pos, first, last) from a %d-element array',
+             'insert_ilist': 'insert(pos, initializer_list of %d)', 'grow_default': 'grow_by(%d)', 'grow_value': 'grow_by(%d, value)',
+             'resize': 'resize(size + %d) / resize(size + %d, value)', 'emplace_x': '%d x emplace_back',
+             'push_x': '%d x push_back(const&) / push_back(&&)', 'grow_ilist': 'grow_by(initializer_list of %d)',
+             'grow_range': 'grow_by(first, last) from a %d-element array', 'grow_gen': 'grow_by_generator(%d, gen)',
+             'grow_to_at_least': 'grow_to_at_least(size + %d) / (size + %d, value)',
+             'insert_one_x': '%d x insert(pos, const&) / insert(pos, &&) at the same position',
+             'insert_vrange': "insert(pos, first, last) from another ConcurrentVector's const_iterators (%d elements)"}
 STRAITS = {'def': 0, 'A': 1, 'B': 2, 'C': 3, 'E': 4}
+STRAIT_TEXT = {'def': 'DefaultConcurrentVectorTraits (inline table, kAsNeeded, pointer-caching iterator)',
+               'A': 'TestTraitsA (heap table, kHalfBufferAhead, compact iterator)',
+               'B': 'TestTraitsB (inline table, kFullBufferAhead, pointer-caching iterator)',
+               'C': 'heap table, kAsNeeded, pointer-caching iterator',
+               'E': 'inline table, kHalfBufferAhead, pointer-caching iterator'}
 
 
-def spill(tr, scen, first, prefix, cnt, tiers, pos=None, timeout=600):
+def spill(tr, scen, first, prefix, cnt, tiers, pos=None, timeout=900):
     defs = {'VF_TRAITS': STRAITS[tr], 'VF_SCEN': SCEN[scen], 'VF_FIRST': first, 'VF_PREFIX': prefix, 'VF_CNT': cnt, 'VF_CV_HEADER': 64}
     if pos is not None:
         defs['VF_POS'] = pos
+    fb = max(first, 1)
+    fb = 1 << (fb - 1).bit_length()
+    ins = scen.startswith('insert')
     return {'name': 'spill_%s_%s_f%d_p%d_c%d%s' % (tr, scen, first, prefix, cnt, '' if pos is None else '_at%d' % pos),
             'src': 'spill.cpp', 'engine': 'cbmc', 'defs': defs, 'unwind': prefix + cnt + 2, 'timeout': timeout, 'tiers': tiers,
-            'bounds': 'x'}
+            # model options (see rt/cbmc_rt.h, vf/ir2c.py): atomic<T*> accesses stay pointer-typed; `vb_ & ~63` of the fast
+            # iterator is resolved to the registered vector under a checked equality; pointer differences as C pointer differences
+            'rt_defs': {'VF_PTR_ATOMICS': 1, 'VF_UNTAG': 64}, 'ptrdiff': True,
+            'bounds': ('%s; first bucket %d element(s) (%s), buckets %d,%d,%d,..; concrete prefix of %d emplace_back calls, then ONE operation: '
+                       '%s%s; element values symbolic; final size %d; afterwards size/empty/operator[] for every index, live objects == size, '
+                       'forward and backward iterator walks, end()-begin(), front/back, begin()+(size-1), destruction balance; '
+                       'CBMC pointer checks on every access of the real code') % (
+                           STRAIT_TEXT[tr], fb, 'default constructor' if first == 0 else 'reserving constructor Vec(%d, ReserveTag)' % first,
+                           fb, fb, 2 * fb, prefix, SCEN_TEXT[scen] % ((cnt,) * SCEN_TEXT[scen].count('%d')),
+                           '' if not ins else (', position %d (literal)' % pos if pos is not None else
+                                               ', position symbolic in 0..%d (one literal scenario per value)' % prefix),
+                           prefix + cnt)}
 
 
-INSTANCES.append(spill('def', 'insert_count', 0, 3, 2, ['dev'], pos=1))
-INSTANCES.append(spill('def', 'insert_count', 0, 3, 2, ['dev']))
+# quick: default traits (inline table, kAsNeeded, fast iterator), first bucket 1 (buckets 1,1,2,4,8): a 3-element prefix ends one
+# element before the boundary 4, a 2-element prefix two elements before it; bucket 3 (indices 4..7) has never been allocated
+Q = ['quick', 'thorough']
+T = ['thorough']
+INSTANCES.append(spill('def', 'insert_count', 0, 3, 2, Q, pos=1))
+INSTANCES.append(spill('def', 'insert_ilist', 0, 2, 3, Q, pos=2))
+INSTANCES.append(spill('def', 'grow_default', 0, 3, 2, Q))
+INSTANCES.append(spill('def', 'resize', 0, 3, 2, Q))
+INSTANCES.append(spill('def', 'emplace_x', 0, 3, 2, Q))
+INSTANCES.append(spill('def', 'push_x', 0, 3, 2, Q))
+# thorough: symbolic position (scenario tree), the other source kinds / grow kinds, a first bucket of 2 through the real
+# reserving constructor, the other three trait sets with the pointer-caching iterator
+INSTANCES.append(spill('def', 'insert_range', 0, 2, 3, T, pos=0))
+INSTANCES.append(spill('def', 'insert_count', 0, 3, 2, T, timeout=1800))
+INSTANCES.append(spill('def', 'insert_count', 0, 2, 3, T, timeout=1800))
+INSTANCES.append(spill('def', 'insert_range', 0, 3, 2, T, timeout=1800))
+INSTANCES.append(spill('def', 'insert_ilist', 0, 3, 2, T, timeout=1800))
+INSTANCES.append(spill('def', 'insert_vrange', 0, 3, 2, T, pos=1, timeout=1800))
+INSTANCES.append(spill('def', 'insert_one_x', 0, 3, 2, T, pos=1, timeout=1800))
+INSTANCES.append(spill('def', 'insert_count', 0, 1, 2, T, pos=0))
+for sc in ('grow_value', 'grow_ilist', 'grow_range', 'grow_gen', 'grow_to_at_least'):
+    INSTANCES.append(spill('def', sc, 0, 3, 2, T))
+INSTANCES.append(spill('def', 'grow_default', 0, 2, 3, T))
+INSTANCES.append(spill('def', 'insert_count', 2, 3, 2, T, pos=1, timeout=1800))
+INSTANCES.append(spill('def', 'insert_count', 2, 2, 3, T, pos=0, timeout=1800))
+INSTANCES.append(spill('def', 'grow_default', 2, 3, 2, T))
+INSTANCES.append(spill('def', 'resize', 2, 2, 3, T))
+for tr in ('C', 'E'):
+    INSTANCES.append(spill(tr, 'insert_count', 0, 3, 2, T, pos=1, timeout=1800))
+    INSTANCES.append(spill(tr, 'grow_default', 0, 3, 2, T))
+# kFullBufferAhead allocates bucket b+1 when slot 0 of bucket b is written: a 1-element prefix + 4 elements spills into bucket 3
+INSTANCES.append(spill('B', 'insert_count', 0, 1, 4, T, pos=0, timeout=1800))
+INSTANCES.append(spill('B', 'grow_default', 0, 1, 4, T))
